@@ -1,6 +1,7 @@
 package simrt
 
 import (
+	"errors"
 	"fmt"
 	"os"
 	"path/filepath"
@@ -141,3 +142,27 @@ func (s *Sim) CrashSite() string {
 	}
 	return ""
 }
+
+// ErrNoSpace is the injected file write error.
+var ErrNoSpace = errors.New("simrt: injected write error: no space left on device")
+
+// FileWrite replaces (*os.File).Write in instrumented packages: a yield and
+// crash point, and with Config.FailFileWrite = k the k-th file write of the
+// run fails without writing anything (all later ones too with FailFileSticky:
+// a full disk).
+func FileWrite(site string, f *os.File, b []byte) (int, error) {
+	s := cur.Load()
+	if s == nil || s.passive.Load() != 0 {
+		return f.Write(b)
+	}
+	IOPoint(site)
+	n := int(s.fwN.Add(1))
+	if k := s.cfg.FailFileWrite; k > 0 && (n == k || (s.cfg.FailFileSticky && n > k)) {
+		Probe("file write failed (injected)")
+		return 0, ErrNoSpace
+	}
+	return f.Write(b)
+}
+
+// FileWrites is the number of file writes of instrumented packages so far.
+func (s *Sim) FileWrites() int { return int(s.fwN.Load()) }
